@@ -229,6 +229,20 @@ func newSessionCfg(e modelEntry, r *rand.Rand, configured bool, density float64)
 			addTy(o)
 		}
 	}
+	// what the recording registrar covers is driven after all: Register itself and the server-streaming RPCs
+	if len(s.registered) > 0 {
+		covered := map[string]bool{"Register": true}
+		for _, rpc := range s.rpcs {
+			covered[rpc.desc.StreamName] = true
+		}
+		var rest []string
+		for _, name := range s.skipped {
+			if !covered[name] {
+				rest = append(rest, name)
+			}
+		}
+		s.skipped = rest
+	}
 	// request wrappers (servers): their message-typed fields are the resource types
 	for _, md := range append([]protoreflect.MessageDescriptor(nil), s.msgTys...) {
 		fds := md.Fields()
@@ -747,8 +761,11 @@ func tail(t []callDesc, n int) []callDesc {
 func runModels(f lib.Flags, res *lib.Result) {
 	mon := res.Monitor("snapshot-models",
 		"every constructor in the model table x random call sequences over all public methods whose parameters can be generated "+
-			"(ctx, proto messages, strings from a small pool + harvested ids, numbers, read/write options, caller edits of messages passed earlier); "+
-			"every proto message reachable from a return value or a stream event is deep-copied when first seen and compared after every later step; "+
+			"(ctx, proto messages, strings from a small pool + ids and names harvested from results incl. nested ones, numbers, read/write options, caller edits of messages passed earlier) "+
+			"and over every server-streaming RPC of the services the instance registers (Register is called with a recording registrar; each stream handler is run with a recording ServerStream: "+
+			"generated request in, every sent response observed); odd sequences drive an instance built from GENERATED constructor options (the package's own With… options called with random arguments, "+
+			"repeated messages left unsorted, options repeated, messages shared between options), even ones the default instance; message density cycles 0.4/0.65/0.85; "+
+			"every proto message reachable from a return value, a stream event or a sent response is deep-copied when first seen and compared after every later step; "+
 			"non-trivial = a sequence that produced at least two tracked messages")
 	nseq := f.N(60, 1500)
 	steps := 24
@@ -777,6 +794,14 @@ func runModels(f lib.Flags, res *lib.Result) {
 		}
 	}
 	res.Extra["methods_not_driven"] = notDriven
+	viaRPC := map[string][]string{}
+	for _, e := range modelTable {
+		ss := newSession(e, seqRand(0, e.key(), 0))
+		for _, rpc := range ss.rpcs {
+			viaRPC[e.key()] = append(viaRPC[e.key()], rpc.service+"/"+rpc.desc.StreamName)
+		}
+	}
+	res.Extra["stream_rpcs_driven_through_register"] = viaRPC
 	res.Extra["models_driven"] = names
 	res.Extra["models_wall_s"] = wall
 }
